@@ -113,6 +113,14 @@ def run_task(source, contracts, loops, qualname, natives=None, timeout_ms=10000,
                 for p, (v, assumes) in combo:
                     if v == "__series__":
                         v = new_series(st, p)
+                    elif v == "__candle__":
+                        from .series import CandleAt
+
+                        sref = new_series(st, p + ".list")
+                        jj = z3.Int(p + ".pos")
+                        st.assume(z3.And(jj >= 0, jj < st.heap[sref.oid].length))
+                        st.inst_terms.append(("term", jj))
+                        v = CandleAt(sref, jj)
                     env[p] = v
                     for a in assumes:
                         st.assume(a)
